@@ -91,6 +91,17 @@ type JCase struct {
 	Sig    map[string]string `json:"sig,omitempty"`
 	Stats  map[string]int    `json:"stats,omitempty"`
 	Note   string            `json:"note,omitempty"`
+	// concurrent mode, on failure: the recorded history (logical invocation/response times per op)
+	History []JHist `json:"history,omitempty"`
+	Watched []JOut  `json:"global_watch,omitempty"`
+}
+
+type JHist struct {
+	Worker int   `json:"worker"`
+	Start  int64 `json:"start"`
+	End    int64 `json:"end"`
+	Op     JOp   `json:"op"`
+	Out    JOut  `json:"out"`
 }
 
 // ---------------------------------------------------------------- conversions
@@ -142,6 +153,19 @@ func fromPBList(l []*pbresource.Resource) []JRes {
 	return out
 }
 
+func (r JRes) String() string {
+	o := ""
+	if r.Own != nil {
+		o = " owner=" + r.Own.ID.Nm + "/" + r.Own.Uid
+	}
+	return fmt.Sprintf("{%s/%s/%s/%s/%s gv=%s uid=%s v%s data=%d%s}", r.ID.G, r.ID.K, r.ID.P, r.ID.N, r.ID.Nm, r.GV, r.Uid, r.Ver, r.Data, o)
+}
+
+func (o JOut) String() string {
+	b, _ := json.Marshal(o)
+	return string(b)
+}
+
 func resEq(a, b JRes) bool {
 	if a.ID != b.ID || a.GV != b.GV || a.Uid != b.Uid || a.Ver != b.Ver || a.Data != b.Data {
 		return false
@@ -171,6 +195,7 @@ func main() {
 	out := flag.String("out", "", "output file (JSON lines)")
 	replay := flag.String("replay", "", "replay file: re-executes the schedule in it on the real store")
 	race := flag.Bool("conc", true, "run the concurrent histories as well")
+	shrink := flag.String("shrink", "", "case file (one JSON case): print the case with a minimised schedule")
 	oSched := flag.Int("nsched", -1, "override: number of generated schedules")
 	oConc := flag.Int("nconc", -1, "override: number of concurrent histories (inmem)")
 	oRaft := flag.Int("nraft", -1, "override: number of concurrent histories (raft-backed)")
@@ -178,6 +203,9 @@ func main() {
 
 	if *replay != "" {
 		os.Exit(doReplay(*replay))
+	}
+	if *shrink != "" {
+		os.Exit(doShrink(*shrink))
 	}
 	if *out == "" {
 		fmt.Fprintln(os.Stderr, "need -out")
@@ -219,6 +247,9 @@ func main() {
 	for i, c := range corpusCases() {
 		c.Seed = int64(-1 - i)
 		emit(c)
+	}
+	if *tier == "thorough" && *oSched < 0 {
+		runExhaustive(5, emit)
 	}
 	runSchedBatch(rng, nSched, false, emit)
 	runSchedBatch(rng, nMal, true, emit)
